@@ -58,6 +58,11 @@ def N(ix, v, depth=40):
                 if opn in ("iadd", "isub") and b[0] == "neg":
                     # x + (−u) is x − (+u): adding a negative literal operand and subtracting the positive one are one form
                     return ("isub" if opn == "iadd" else "iadd", a, ("pos", b[1]))
+                # x * (-1) and (-1) * x are -x
+                if opn == "imul" and b == ("neg", ("int", 1)):
+                    return ("inv", a)
+                if opn == "imul" and a == ("neg", ("int", 1)):
+                    return ("inv", b)
                 return (opn, a, b)
             if last == "abs":
                 return ("abs", N(ix, ks[0], depth - 1))
